@@ -14,6 +14,14 @@ CLAIMED = {
         note="Assumed: os.urandom uniform/independent; Python re/str semantics as encoded (DESIGN 2.2); str.lower/count/join "
              "uninterpreted. Automat rows of Input/Code are not part of this check (C14).",
         design="6/C19"),
+    "C20": dict(
+        text="parse_tcp_v1_hint, parse_hint, Common.add_connection_hints and Manager.use_hints are verified against contracts "
+             "whose inputs range over a recursive JSON sort (null/bool/int/real/str/list/dict, bool a subclass of int): no "
+             "exception for any JSON value, only (str host, genuine-int port, numeric priority, supported type) become hint "
+             "objects, fields are taken unchanged; callers are checked against callee contracts; parse(encode(h)) == h as a lemma.",
+        note="Assumed: sorted()/filter() models (same members), Twisted endpoint constructors, JSON floats as reals. "
+             "Connector._use_hints (grouping by priority) is not under contract yet; relay round trip is element-wise only.",
+        design="6/C20"),
 }
 NOT_BUILT = "check not built yet (framework under construction; see DESIGN.md section 11)"
 
